@@ -185,6 +185,10 @@ def atom_neg(a):
         return ("notin", a[1], a[2])
     if k == "notin":
         return ("in", a[1], a[2])
+    if k == "notin_variants":
+        return ("in_variants", a[1], a[2])
+    if k == "in_variants":
+        return ("notin_variants", a[1], a[2])
     raise ValueError(a)
 
 
@@ -245,6 +249,8 @@ class Path:
 def show(t, depth=0):
     if not isinstance(t, tuple):
         return repr(t)
+    if not t:
+        return "()"
     k = t[0]
     if k == "p":
         return "p%d" % t[1]
@@ -585,6 +591,12 @@ class Enumerator:
             agg = r["agg"]
             if agg == "adt":
                 name = "adt:%s::%s#%d" % (strip_generics(r["adt"]), r["variant_name"], r["variant"])
+                if "discr_bits" in r:
+                    dv = int(r["discr_bits"])
+                    dt = r.get("discr_ty", "isize")
+                    if dt in INT_TYS and dt not in UNSIGNED and dv >= 1 << (INT_TYS[dt] - 1):
+                        dv -= 1 << INT_TYS[dt]
+                    DISCR[name] = dv
                 if "union_field" in r:
                     name += "@%d" % r["union_field"]
                 return ("agg", name) + ops
@@ -718,8 +730,8 @@ class Enumerator:
             v = d[1]
             if d[0] == "bool":
                 v = 1 if v else 0
-            if d[0] == "int" and v < 0 and d[2] in INT_TYS:
-                v += 1 << INT_TYS[d[2]]
+            if d[0] == "int" and v < 0 and dty in INT_TYS:
+                v += 1 << INT_TYS[dty]
             for val, tb in targets:
                 if val == v:
                     return [(None, tb)]
@@ -741,6 +753,11 @@ class Enumerator:
                 alts.append((None, other))
             return alts
         if d[0] == "discr":
+            def sconv(v):
+                if dty in INT_TYS and dty not in UNSIGNED and v >= 1 << (INT_TYS[dty] - 1):
+                    return v - (1 << INT_TYS[dty])
+                return v
+            targets = [(sconv(v), tb) for v, tb in targets]
             vals = tuple(v for v, _ in targets)
             alts = [(("is", d[1], v), tb) for v, tb in targets]
             if not self._is_unreachable(other):
@@ -858,8 +875,13 @@ class Enumerator:
         self._dfs(t["target"], st)
 
 
+DISCR = {}
+
+
 def mk_discr(v):
     if v[0] == "agg" and v[1].startswith("adt:") and "#" in v[1]:
+        if v[1] in DISCR:
+            return ("int", DISCR[v[1]], "isize")
         n = v[1].split("#")[1].split("@")[0]
         return ("int", int(n), "isize")
     if v[0] == "setdiscr":
@@ -911,7 +933,7 @@ def loop_assigned_locals(body, header):
     return out
 
 
-def through_loops(body, program=None, **kw):
+def through_loops(body, program=None, keep_back=False, **kw):
     """Paths entry -> return/panic where every loop is abstracted: after a loop header is reached, execution
     resumes *at the header* with loop-modified locals replaced by fresh symbols ('L', n) and all other locals
     keeping their pre-loop terms (they are loop invariant by construction).  Loop back edges are dropped, so
@@ -948,6 +970,8 @@ def through_loops(body, program=None, **kw):
                 h = p.value
                 if h == start and not first:
                     # back edge of the loop we are abstracting: the iteration relation, not part of the summary
+                    if keep_back:
+                        results.append(Path(tuple(allc), "back", h, ev, p.env, p.heap, p.end, p.blocks, asm))
                     continue
                 if depth >= 6:
                     results.append(Path(tuple(allc), "other", ("loop-depth",), ev, p.env, p.heap, p.end, p.blocks, asm))
@@ -957,9 +981,61 @@ def through_loops(body, program=None, **kw):
 
                 def symf2(l, _c=changed, _prev=symf):
                     return ("L", l) if l in _c else _prev(l)
-                run_from(h, inv_env, allc, ev + (("loop", h),), asm, False, depth + 1, symf2)
+                pre_vals = tuple(sorted((l, p.env[l]) for l in changed if l in p.env))
+                run_from(h, inv_env, allc, ev + (("loop", h, pre_vals),), asm, False, depth + 1, symf2)
             else:
                 results.append(Path(tuple(allc), p.kind, p.value, ev, p.env, p.heap, p.end, p.blocks, asm))
 
     run_from(0, {}, [], (), (), True, 0)
     return results
+
+
+# --------------------------------------------------------------------------
+# splitting symbolic boolean results into cases
+# --------------------------------------------------------------------------
+def bool_cases(t):
+    """bool term -> list of (atoms, truth) covering all cases (short-circuit expansion of & | !)"""
+    if t[0] == "bool":
+        return [((), t[1])]
+    if t[0] == "un" and t[1] == "Not":
+        return [(a, not v) for a, v in bool_cases(t[2])]
+    if t[0] == "bin" and t[1] in ("BitAnd", "BitOr"):
+        out = []
+        for a1, v1 in bool_cases(t[2]):
+            if (t[1] == "BitAnd" and not v1) or (t[1] == "BitOr" and v1):
+                out.append((a1, v1))
+            else:
+                for a2, v2 in bool_cases(t[3]):
+                    out.append((a1 + a2, v2))
+        return out
+    a_t = atom_of(t, True)
+    a_f = atom_of(t, False)
+    return [((a_t,), True), ((a_f,), False)]
+
+
+def split_bool_returns(paths):
+    out = []
+    for p in paths:
+        v = p.value
+        if p.kind == "return" and isinstance(v, tuple) and v and (
+                (v[0] == "bin" and v[1] in ("Eq", "Ne", "Lt", "Le", "Gt", "Ge", "BitAnd", "BitOr")) or (v[0] == "un" and v[1] == "Not")):
+            for atoms, truth in bool_cases(v):
+                conds = list(p.conds)
+                dead = False
+                for a in atoms:
+                    if a[0] == "const":
+                        if not a[1]:
+                            dead = True
+                            break
+                        continue
+                    if contradicts(conds, a):
+                        dead = True
+                        break
+                    if a not in conds:
+                        conds.append(a)
+                if dead:
+                    continue
+                out.append(Path(tuple(conds), p.kind, ("bool", truth), p.events, p.env, p.heap, p.end, p.blocks, p.assumed))
+        else:
+            out.append(p)
+    return out
